@@ -7,6 +7,7 @@
 package main
 
 import (
+	"encoding/json"
 	"fmt"
 	"reflect"
 	"sort"
@@ -139,28 +140,108 @@ func dCompareValidate(out *vOut, term string, cfg *otelcol.Config) []string {
 	return ref
 }
 
-// an invalid setting for every type of the built-in components that has a Validate method, keyed by
-// reflect type name; written at every position where that type occurs
-var dInvalid = map[string][]map[string]any{
-	"configretry.BackOffConfig": {{"multiplier": -1.5}, {"randomization_factor": 7.5}},
-	"configtls.Config":          {{"min_version": "9.9"}},
-	"configtls.ClientConfig":    {{"min_version": "9.9"}},
-	"configtls.ServerConfig":    {{"max_version": "0.1"}},
-	"confignet.AddrConfig":      {{"transport": "bogus"}},
-	"configgrpc.ServerConfig":   {{"read_buffer_size": -1}, {"write_buffer_size": -7}},
-	"configgrpc.ClientConfig":   {{"balancer_name": "no_such_balancer"}},
-	"confighttp.ClientConfig":   {{"compression": "gzip", "compression_params": map[string]any{"level": 99}}},
-	"internal.BatcherConfig":    {{"enabled": true, "min_size": -3}},
-	"internal.TimeoutConfig":    {{"timeout": "-1s"}},
-	"queuebatch.Config":         {{"enabled": true, "queue_size": -1}},
-	"queuebatch.BatchConfig":    {{"min_size": -1}, {"flush_timeout": "-1s"}},
-	"batchprocessor.Config":     {{"send_batch_size": 10, "send_batch_max_size": 5}},
-	"memorylimiter.Config":      {{"check_interval": "0s"}},
-	"debugexporter.Config":      {{"verbosity": "none"}},
-	"otlpexporter.Config":       {{"endpoint": ""}},
-	"otlphttpexporter.Config":   {{"endpoint": ""}},
-	"otlpreceiver.Config":       {{}},
-	"zpagesextension.Config":    {{"endpoint": ""}},
+// The per-validator table of invalid settings: for every type of the built-in components that has a
+// Validate method, one sample per rule (error branch) of that method, keyed by reflect type name and
+// written at every position where the type occurs.  `want` is a fragment of the message the rule
+// gives; the sample must be REJECTED (at decode time or by a new validation error containing it).
+type dSample struct {
+	set    map[string]any
+	want   string
+	nobase bool // write the sample alone (rules about what is missing)
+}
+
+var dInvalid = map[string][]dSample{
+	"configretry.BackOffConfig": {
+		{set: map[string]any{"initial_interval": "-1s"}, want: "initial_interval"},
+		{set: map[string]any{"randomization_factor": 7.5}, want: "randomization_factor"},
+		{set: map[string]any{"randomization_factor": -0.5}, want: "randomization_factor"},
+		{set: map[string]any{"multiplier": -1.5}, want: "multiplier"},
+		{set: map[string]any{"max_interval": "-1s"}, want: "max_interval"},
+		{set: map[string]any{"max_elapsed_time": "-1s"}, want: "max_elapsed_time"},
+		{set: map[string]any{"initial_interval": "9s", "max_interval": "9s", "max_elapsed_time": "2s"}, want: "max_elapsed_time"},
+		{set: map[string]any{"initial_interval": "1s", "max_interval": "50s", "max_elapsed_time": "20s"}, want: "max_elapsed_time"},
+	},
+	"configtls.Config":        dTLSSamples,
+	"configtls.ClientConfig":  dTLSSamples,
+	"configtls.ServerConfig":  dTLSSamples,
+	"confignet.AddrConfig":    {{set: map[string]any{"transport": "bogus"}, want: "transport"}},
+	"configgrpc.ServerConfig": {
+		{set: map[string]any{"read_buffer_size": -1}, want: "read_buffer_size"},
+		{set: map[string]any{"write_buffer_size": -7}, want: "write_buffer_size"},
+		{set: map[string]any{"max_recv_msg_size_mib": 8796093022208}, want: "max_recv_msg_size_mib"},
+	},
+	"configgrpc.ClientConfig": {{set: map[string]any{"balancer_name": "no_such_balancer"}, want: "balancer_name"}},
+	"confighttp.ClientConfig": {{set: map[string]any{"compression": "gzip", "compression_params": map[string]any{"level": 99}}, want: ""}},
+	"internal.BatcherConfig": {
+		{set: map[string]any{"enabled": true, "flush_timeout": "0s"}, want: "flush_timeout"},
+		{set: map[string]any{"enabled": true, "min_size": -3}, want: "min_size"},
+		{set: map[string]any{"enabled": true, "max_size": -1}, want: "max_size"},
+		{set: map[string]any{"enabled": true, "min_size": 10, "max_size": 5}, want: "max_size"},
+	},
+	"internal.TimeoutConfig": {{set: map[string]any{"timeout": "-1s"}, want: "timeout"}},
+	"queuebatch.Config": {
+		{set: map[string]any{"enabled": true, "num_consumers": 0}, want: "num_consumers"},
+		{set: map[string]any{"enabled": true, "num_consumers": -2}, want: "num_consumers"},
+		{set: map[string]any{"enabled": true, "queue_size": 0}, want: "queue_size"},
+		{set: map[string]any{"enabled": true, "queue_size": -1}, want: "queue_size"},
+		{set: map[string]any{"enabled": true, "storage": "file_storage", "wait_for_result": true}, want: "wait_for_result"},
+		{set: map[string]any{"enabled": true, "storage": "file_storage", "sizer": "items"}, want: "sizer"},
+		{set: map[string]any{"enabled": true, "sizer": "requests", "batch": map[string]any{"flush_timeout": "1s"}}, want: "sizer"},
+	},
+	"queuebatch.BatchConfig": {
+		{set: map[string]any{"flush_timeout": "0s"}, want: "flush_timeout"},
+		{set: map[string]any{"flush_timeout": "1s", "min_size": -1}, want: "min_size"},
+		{set: map[string]any{"flush_timeout": "1s", "max_size": -1}, want: "max_size"},
+		{set: map[string]any{"flush_timeout": "1s", "min_size": 10, "max_size": 5}, want: "max_size"},
+	},
+	"batchprocessor.Config": {
+		{set: map[string]any{"send_batch_size": 10, "send_batch_max_size": 5}, want: "send_batch_max_size"},
+		{set: map[string]any{"metadata_keys": []any{"a", "A"}}, want: "metadata_keys"},
+		{set: map[string]any{"timeout": "-1s"}, want: "timeout"},
+	},
+	"memorylimiter.Config": {
+		{set: map[string]any{"check_interval": "0s"}, want: "check_interval"},
+		{set: map[string]any{"min_gc_interval_when_soft_limited": "1s", "min_gc_interval_when_hard_limited": "5s"}, want: "min_gc_interval"},
+		{set: map[string]any{"limit_mib": 0}, want: "limit"},
+		{set: map[string]any{"limit_mib": 0, "limit_percentage": 150}, want: "percentage"},
+		{set: map[string]any{"limit_mib": 100, "spike_limit_mib": 100}, want: "spike"},
+		{set: map[string]any{"limit_mib": 0, "limit_percentage": 50, "spike_limit_percentage": 50}, want: "spike"},
+	},
+	"debugexporter.Config":    {{set: map[string]any{"verbosity": "none"}, want: "verbosity"}},
+	"otlpexporter.Config":     {{set: map[string]any{"endpoint": ""}, want: "endpoint"}, {set: map[string]any{"endpoint": "host-without-port"}, want: ""}, {set: map[string]any{"endpoint": "host:notaport"}, want: "port"}},
+	"otlphttpexporter.Config": {{set: map[string]any{"endpoint": ""}, want: "endpoint"}},
+	"otlpreceiver.Config":     {{set: map[string]any{}, want: "protocol", nobase: true}},
+	"zpagesextension.Config":  {{set: map[string]any{"endpoint": ""}, want: "endpoint"}},
+}
+
+var dTLSSamples = []dSample{
+	{set: map[string]any{"ca_file": "a.pem", "ca_pem": "PEM"}, want: "CA"},
+	{set: map[string]any{"min_version": "9.9"}, want: "min_version"},
+	{set: map[string]any{"max_version": "0.1"}, want: "max_version"},
+	{set: map[string]any{"min_version": "1.3", "max_version": "1.2"}, want: "min_version cannot be greater"},
+	{set: map[string]any{"max_version": "1.1"}, want: "min_version cannot be greater"}, // below the default minimum
+	{set: map[string]any{"max_version": "1.0"}, want: "min_version cannot be greater"},
+}
+
+// settings that make the component valid on its own, so that a planted rule violation is the only
+// new error
+var dValidBase = map[string]map[string]any{
+	"exporters/otlp":             {"endpoint": "localhost:4317"},
+	"exporters/otlphttp":         {"endpoint": "http://localhost:4318"},
+	"extensions/memory_limiter":  {"check_interval": "1s", "limit_mib": 100},
+	"processors/memory_limiter":  {"check_interval": "1s", "limit_mib": 100},
+	"receivers/otlp":             {"protocols": map[string]any{"grpc": map[string]any{}, "http": map[string]any{}}},
+}
+
+func dCopy(v any) any {
+	if m, ok := v.(map[string]any); ok {
+		c := map[string]any{}
+		for k, x := range m {
+			c[k] = dCopy(x)
+		}
+		return c
+	}
+	return v
 }
 
 type dValPos struct {
@@ -205,7 +286,11 @@ func dValidateStream(out *vOut, r *vRand, all []dEntryPts) {
 		dValPositions(ep.e.D, nil, 0, &pos)
 		out.Stat("validate.positions."+ep.e.Name, len(pos))
 		base := map[string]bool{}
-		if cfg0, err := dLoad(dDoc(ep.e, map[string]any{})); err == nil {
+		validBase := dValidBase[ep.e.Name]
+		if validBase == nil {
+			validBase = map[string]any{}
+		}
+		if cfg0, err := dLoad(dDoc(ep.e, dCopy(validBase))); err == nil {
 			var ref0 []string
 			rWalk(reflect.ValueOf(cfg0), nil, &ref0)
 			for _, l := range ref0 {
@@ -221,16 +306,15 @@ func dValidateStream(out *vOut, r *vRand, all []dEntryPts) {
 				continue
 			}
 			for _, smp := range samples {
-				leaf := map[string]any{}
-				for k, v := range smp {
-					leaf[k] = v
+				val := dBuild(vp.steps, dCopy(smp.set))
+				if !smp.nobase {
+					val = dMerge(dCopy(validBase), val)
 				}
-				val := dBuild(vp.steps, leaf)
 				doc := dDoc(ep.e, val)
 				cfg, err := dLoad(doc)
 				term := "(CDec true " + vStr(ep.e.Name) + " (" + dCv(val) + ") [])"
 				if err != nil {
-					out.Stat("validate.planted.loadfail", 1)
+					out.Stat("validate.planted.loadfail", 1) // rejected at decode time: rejected all the same
 					continue
 				}
 				ref := dCompareValidate(out, term, cfg)
@@ -239,9 +323,13 @@ func dValidateStream(out *vOut, r *vRand, all []dEntryPts) {
 				prefix := ep.e.Kind + "::" + ep.e.Type
 				hit := false
 				for _, l := range ref {
-					if strings.HasPrefix(l, prefix) && !base[l] {
+					if strings.HasPrefix(l, prefix) && (!base[l] || smp.nobase) && strings.Contains(l, smp.want) {
 						hit = true
 					}
+				}
+				if !hit {
+					js, _ := json.Marshal(doc)
+					out.Oracle("validation-rule-not-enforced", term, fmt.Sprintf("invalid setting of %s accepted (expected an error mentioning %q): %s => %v", vp.d.Type, smp.want, js, ref))
 				}
 				if hit {
 					out.Stat("validate.planted.failing", 1)
